@@ -603,3 +603,61 @@ func slowPollCase() []string {
 	}
 	return out
 }
+
+// expiryCreateRounds (in-memory): a record with a lease of 2-4 ms, 1-3 parked waiters, and a creator that re-creates the
+// key at the instant of the expiration (an expired record is absent: Create succeeds, from a few microseconds before
+// the instant on it is retried).  Every waiter returns (nil: another version is there; ErrNotExist: it looked in
+// between), and when all of them are gone no waiter record is left.
+func expiryCreateRounds(seed uint64, rounds int) []string {
+	g := prng.New(seed, "C07-expcreate", 0)
+	bg := context.Background()
+	for round := 0; round < rounds; round++ {
+		st := inmem.New()
+		lease := time.Duration(2000+g.Intn(2000)) * time.Microsecond
+		exp := time.Now().Add(lease)
+		r0, err := st.Put(bg, kvs.Record{Key: "k", Value: []byte("old"), ExpiresAt: &exp})
+		if err != nil {
+			return []string{"expiry-create rounds: Put failed: " + err.Error()}
+		}
+		nw := 1 + g.Intn(3)
+		done := make(chan error, nw)
+		ctx, cancel := context.WithTimeout(bg, 4*time.Second)
+		for i := 0; i < nw; i++ {
+			go func() { done <- st.WaitForVersionChange(ctx, "k", r0.Version) }()
+		}
+		for i := 0; i < 400 && inmem.VerifWaiters(st)["k"] < nw; i++ {
+			time.Sleep(5 * time.Microsecond)
+		}
+		lead := time.Duration(g.Intn(60)-20) * time.Microsecond
+		for time.Until(exp) > lead {
+		}
+		created := false
+		for t0 := time.Now(); time.Since(t0) < 50*time.Millisecond; {
+			if _, err := st.Create(bg, kvs.Record{Key: "k", Value: []byte("new")}); err == nil {
+				created = true
+				break
+			}
+		}
+		if !created {
+			cancel()
+			return []string{fmt.Sprintf("round %d: Create over a record whose expiration passed up to 50 ms ago keeps failing", round)}
+		}
+		for i := 0; i < nw; i++ {
+			select {
+			case err := <-done:
+				if err != nil && !errors.Is(err, gerrors.ErrNotExist) {
+					cancel()
+					return []string{fmt.Sprintf("round %d: a waiter on a record that expired and was created again returned %v", round, err)}
+				}
+			case <-time.After(3 * time.Second):
+				cancel()
+				return []string{fmt.Sprintf("round %d: a waiter on a record that expired and was created again (another version) is still parked 3 s later", round)}
+			}
+		}
+		cancel()
+		if left := inmem.VerifWaiters(st); len(left) > 0 {
+			return []string{fmt.Sprintf("round %d: every waiter has returned, the store still keeps waiter records: %v (lease %v, %d waiters, the key was created again at its expiration)", round, left, lease, nw)}
+		}
+	}
+	return nil
+}
